@@ -17,7 +17,7 @@ theorem handleExtra_eq (recSplit : RegInfo → List Line → Res (List Col))
         match hullBox nc with
         | .error _ => .error .ValueError
         | .ok eb =>
-          match (if mcw > 0 then recSplit (extraReg g eb) nc
+          match (if mcw > recGuard then recSplit (extraReg g eb) nc
                  else match hullBox nc with
                    | .ok b => .ok [⟨nc, b, .derived (extraReg g eb).id "column" b⟩]
                    | .error e => .error e) with
@@ -36,7 +36,7 @@ theorem handleExtra_eq (recSplit : RegInfo → List Line → Res (List Col))
       | error e => simp
       | ok eb =>
         simp only
-        by_cases hm : mcw > 0
+        by_cases hm : mcw > recGuard
         · simp only [hm, if_true]
           cases recSplit (extraReg g eb) nc <;> simp
         · simp [hm]
@@ -103,7 +103,7 @@ theorem handleExtra_good {recSplit : RegInfo → List Line → Res (List Col)}
           · cases h'
           · exact h'
         -- the extra columns, whichever way they are made, are good for the extra region
-        have hgood : ∀ ecs, (if mcw > 0 then recSplit (extraReg g eb) nc
+        have hgood : ∀ ecs, (if mcw > recGuard then recSplit (extraReg g eb) nc
                  else .ok [⟨nc, eb, .derived (extraReg g eb).id "column" eb⟩]) = .ok ecs →
                  Good (extraReg g eb) nc ecs := by
           intro ecs he
@@ -138,7 +138,7 @@ theorem columnRanges_exclusive (thr mcw : Int) {lines : List Line} (hw : WF line
   have hp' := List.Pairwise.sublist (List.filter_sublist (p := fun ρ => decide (ρ.2 - ρ.1 ≥ mcw))) hp
   refine List.Pairwise.imp ?_ hp'
   intro ρ1 ρ2 h l hl ⟨h1, h2⟩
-  exact hit_disjoint (hw l hl) (by omega) h1 h2
+  exact hit_disjoint (hw l hl) (by have := consts_min_gap_ge_two; omega) h1 h2
 
 /-- conservation, box and id shape for every fuel and every list of well-formed lines -/
 theorem split_good (fuel : Nat) (thr mcw : Int) (g : RegInfo) (lines : List Line) (hw : WF lines)
@@ -179,26 +179,26 @@ theorem split_succ (n : Nat) (thr mcw : Int) (g : RegInfo) (lines : List Line) :
     split (n + 1) thr mcw g lines =
       (makeRangeCols g (colLines lines (columnRanges thr mcw lines)) >>= fun cols0 =>
         mergeOverlapping cols0 >>= fun cols =>
-          handleExtra (split n thr 0) g cols (extraLines lines (columnRanges thr mcw lines)) mcw) := rfl
+          handleExtra (split n thr recMcw) g cols (extraLines lines (columnRanges thr mcw lines)) mcw) := rfl
 
 theorem handleExtra_rec_irrelevant (r1 r2 : RegInfo → List Line → Res (List Col))
-    (g : RegInfo) (cols : List Col) (extra : List Line) {mcw : Int} (hm : ¬ mcw > 0) :
+    (g : RegInfo) (cols : List Col) (extra : List Line) {mcw : Int} (hm : ¬ mcw > recGuard) :
     handleExtra r1 g cols extra mcw = handleExtra r2 g cols extra mcw := by
   rw [handleExtra_eq, handleExtra_eq]
   simp only [if_neg hm]
 
-/-- with `min_column_width ≤ 0` there is no recursive call: one unit of fuel is as good as any -/
-theorem split_fuel_inner (n : Nat) (thr : Int) {mcw : Int} (hm : ¬ mcw > 0) (g : RegInfo)
+/-- with `min_column_width` not above the guard there is no recursive call: one unit of fuel is as good as any -/
+theorem split_fuel_inner (n : Nat) (thr : Int) {mcw : Int} (hm : ¬ mcw > recGuard) (g : RegInfo)
     (ls : List Line) : split (n + 1) thr mcw g ls = split 1 thr mcw g ls := by
   show split (n + 1) thr mcw g ls = split (0 + 1) thr mcw g ls
-  simp only [split_succ, handleExtra_rec_irrelevant (split n thr 0) (split 0 thr 0) _ _ _ hm]
+  simp only [split_succ, handleExtra_rec_irrelevant (split n thr recMcw) (split 0 thr recMcw) _ _ _ hm]
 
 /-- two units of fuel are as good as any larger amount -/
 theorem split_fuel (n : Nat) (thr mcw : Int) (g : RegInfo) (ls : List Line) :
     split (n + 2) thr mcw g ls = split 2 thr mcw g ls := by
-  have : split (n + 1) thr 0 = split (0 + 1) thr 0 := by
+  have : split (n + 1) thr recMcw = split (0 + 1) thr recMcw := by
     funext g' ls'
-    exact split_fuel_inner n thr (by omega) g' ls'
+    exact split_fuel_inner n thr (by have := consts_recursion_stops.1; omega) g' ls'
   show split ((n + 1) + 1) thr mcw g ls = split ((0 + 1) + 1) thr mcw g ls
   rw [split_succ, split_succ, this]
 
@@ -253,7 +253,7 @@ theorem placeAll_noFuel (g : RegInfo) (extra : List Line) (cols : List Col) (nc 
 
 theorem handleExtra_noFuel (recSplit : RegInfo → List Line → Res (List Col))
     (g : RegInfo) (cols : List Col) (extra : List Line) (mcw : Int)
-    (hrec : mcw > 0 → ∀ g' ls', recSplit g' ls' ≠ .error .OutOfFuel) :
+    (hrec : mcw > recGuard → ∀ g' ls', recSplit g' ls' ≠ .error .OutOfFuel) :
     handleExtra recSplit g cols extra mcw ≠ .error .OutOfFuel := by
   rw [handleExtra_eq]
   cases hpa : placeAll g extra cols [] with
@@ -278,7 +278,7 @@ theorem handleExtra_noFuel (recSplit : RegInfo → List Line → Res (List Col))
           · cases he
         · simp
 
-theorem split_noFuel_inner (thr : Int) {mcw : Int} (hm : ¬ mcw > 0) (g : RegInfo) (ls : List Line) :
+theorem split_noFuel_inner (thr : Int) {mcw : Int} (hm : ¬ mcw > recGuard) (g : RegInfo) (ls : List Line) :
     split 1 thr mcw g ls ≠ .error .OutOfFuel := by
   show split (0 + 1) thr mcw g ls ≠ _
   rw [split_succ]
@@ -293,6 +293,6 @@ theorem split_noFuel (thr mcw : Int) (g : RegInfo) (ls : List Line) :
   exact bind_noFuel (makeRangeCols_noFuel _ _) (fun cols0 =>
     bind_noFuel (mergeOverlapping_noFuel _) (fun cols =>
       handleExtra_noFuel _ g cols _ mcw (fun _ g' ls' =>
-        split_noFuel_inner thr (mcw := 0) (by omega) g' ls')))
+        split_noFuel_inner thr (mcw := recMcw) (by have := consts_recursion_stops.1; omega) g' ls')))
 
 end Pagexml.C18
